@@ -2346,6 +2346,15 @@ pub enum UnpackError {
     Misuse,
 }
 
+// a zero-length integer encodes 0 (`Buf::get_int(0)` overflows its sign-extension shift)
+fn get_packed_int(buf: &mut &[u8], intlen: usize) -> i64 {
+    if intlen == 0 {
+        0
+    } else {
+        buf.get_int(intlen)
+    }
+}
+
 pub fn unpack_columns(mut buf: &[u8]) -> Result<Vec<SqliteValueRef<'_>>, UnpackError> {
     let mut ret = vec![];
     if !buf.has_remaining() {
@@ -2369,7 +2378,7 @@ pub fn unpack_columns(mut buf: &[u8]) -> Result<Vec<SqliteValueRef<'_>>, UnpackE
                 if buf.remaining() < intlen {
                     return Err(UnpackError::Abort);
                 }
-                let len = buf.get_int(intlen) as usize;
+                let len = get_packed_int(&mut buf, intlen) as usize;
                 if buf.remaining() < len {
                     return Err(UnpackError::Abort);
                 }
@@ -2386,7 +2395,7 @@ pub fn unpack_columns(mut buf: &[u8]) -> Result<Vec<SqliteValueRef<'_>>, UnpackE
                 if buf.remaining() < intlen {
                     return Err(UnpackError::Abort);
                 }
-                ret.push(SqliteValueRef(ValueRef::Integer(buf.get_int(intlen))));
+                ret.push(SqliteValueRef(ValueRef::Integer(get_packed_int(&mut buf, intlen))));
             }
             Some(ColumnType::Null) => {
                 ret.push(SqliteValueRef(ValueRef::Null));
@@ -2395,7 +2404,7 @@ pub fn unpack_columns(mut buf: &[u8]) -> Result<Vec<SqliteValueRef<'_>>, UnpackE
                 if buf.remaining() < intlen {
                     return Err(UnpackError::Abort);
                 }
-                let len = buf.get_int(intlen) as usize;
+                let len = get_packed_int(&mut buf, intlen) as usize;
                 if buf.remaining() < len {
                     return Err(UnpackError::Abort);
                 }
